@@ -979,7 +979,10 @@ REGRESS = [
 def run(ctx):
     tier, seed = ctx.tier, ctx.seed
     ctx.rule('C12: (1) PPM_ENCODER/PPM_DECODER on EVERY bit string of length 0..12 x M in {2..256} x every container form '
-             '(str/list/tuple/ndarray of 4 dtypes/binary_sequence), every ordered pair of symbol values, edge triples, long '
+             '(str - separator-free AND every separator spelling of the library string format: blank, comma, comma+blank, 2 blanks, '
+             'blank+comma between elements or between symbols/bit blocks, blank-padded; quick: the 5 core spellings above 8 bits - '
+             '/list/tuple/ndarray of 4 dtypes/binary_sequence/binary_sequence(str with blanks)); the same forms for HDD on every '
+             'pattern <= 12 slots and the kinds alphabet, and in the ValueError clauses; every ordered pair of symbol values, edge triples, long '
              'structured + seeded words; (2) HDD: stateless exploration of the nondeterminism tree - a scripted numpy RNG turns every '
              'scalar randint/choice request into a tree node and the explorer re-executes the real HDD for every answer - FULL tree '
              'for EVERY slot pattern (quick: <=12 slots M in {2,4,8}; thorough: <=16 slots M in {2,4,8,16}), deviation-bounded tree '
